@@ -3,10 +3,13 @@
    hist e k <text> v0 <notifications>   notification = v <changes>
    change = 1 sl sc el ec <text>  (with a range)  |  0 <text>  (whole document)
    output: number of prefixes (open + one per notification); per prefix the model's source and
-   version (0 | 1 v) and the reference's text and version; then valid, guard F17. *)
+   version (0 | 1 v) and the reference's text and version, then the number of queried positions
+   and, if any, the model's and the reference's answers; then valid, guard F17.
+   After the notifications: per prefix the list of queried positions. *)
 let next_enc () = match next_int () with 8 -> Utf8 | 16 -> Utf16 | _ -> Utf32
 let next_kind () = match next_int () with 0 -> SyncNone | 1 -> SyncFull | _ -> SyncIncremental
 let next_pos () = let l = next_n () in let c = next_n () in (l, c)
+let put_pos (l, c) = put_n l; put_n c
 let next_change () =
   match next_int () with
   | 1 -> let s = next_pos () in let t = next_pos () in let x = next_str () in Partial ((s, t), x)
@@ -14,16 +17,32 @@ let next_change () =
 let next_notif () = let v = next_z () in let cs = read_list next_change in (v, cs)
 let rec prefixes = function [] -> [[]] | x :: r -> [] :: List.map (fun p -> x :: p) (prefixes r)
 let put_optz = function None -> put_int 0; put_int 0 | Some v -> put_int 1; put_z v
+(* the queries of a step: the lines of the text, then per sampled position offset_at_position,
+   word_at_position, position_from_client_units and position_to_client_units on those lines *)
+let put_queries e t qs =
+  let ls = lsp_lines t in
+  put_list put_nstr ls;
+  List.iter (fun p ->
+    put_n (offset_at_position e t p);
+    put_nstr (word_at_position e t p);
+    put_pos (fst (position_from_client_units e ls p));
+    put_pos (fst (position_to_client_units e ls p))) qs
 let dispatch = function
   | "hist" ->
     let e = next_enc () in let k = next_kind () in let text = next_str () in let v0 = next_z () in
     let ns = read_list next_notif in
     let ps = prefixes ns in
+    let qss = List.map (fun _ -> read_list next_pos) ps in
     put_int (List.length ps);
-    List.iter (fun p ->
+    List.iter2 (fun p qs ->
       let d = run e k text v0 p in
       put_nstr (source d); put_optz (d_version d);
-      put_nstr (spec_text e k text p); put_z (spec_version v0 p)) ps;
+      put_nstr (spec_text e k text p); put_z (spec_version v0 p);
+      put_int (List.length qs);
+      if qs <> [] then begin
+        put_queries e (source d) qs;              (* the model: a function of its current text *)
+        put_queries e (spec_text e k text p) qs   (* the reference: the same queries on the reference text *)
+      end) ps qss;
     put_bool (valid_history e k text ns);
     put_bool (guard_history e k text ns)
   | "off" ->   (* e <text> l ch -> defined? offset *)
